@@ -138,4 +138,17 @@ Syscall32(n) ==
       [] n = "connect" -> 362 [] n = "accept4" -> 364
       [] OTHER -> -1
 SyscallNr(arch, n) == IF arch = "i386" THEN Syscall32(n) ELSE IF arch = "x86_64" THEN Syscall64(n) ELSE -1
+
+\* the names transcribed above, for reverse look-ups
+SyscallNames64 == { "read", "write", "open", "close", "stat", "mmap", "ioctl", "access", "socket", "connect", "accept", "bind",
+                    "listen", "clone", "fork", "execve", "kill", "truncate", "ftruncate", "rename", "mkdir", "rmdir", "creat", "unlink",
+                    "chmod", "chown", "ptrace", "setuid", "mount", "init_module", "delete_module", "openat", "unlinkat", "accept4",
+                    "open_by_handle_at", "finit_module", "execveat" }
+SyscallNames32 == { "exit", "fork", "read", "write", "open", "close", "creat", "link", "unlink", "execve", "chdir", "chmod", "mount",
+                    "setuid", "ptrace", "kill", "rename", "mkdir", "rmdir", "truncate", "ftruncate", "socketcall", "clone",
+                    "init_module", "delete_module", "openat", "open_by_handle_at", "execveat", "bind", "connect", "accept4" }
+\* the names the kernel's table gives to number nr (empty when it is not among the transcribed ones)
+NamesOfNr(arch, nr) ==
+    IF arch = "x86_64" THEN { n \in SyscallNames64 : Syscall64(n) = nr }
+    ELSE IF arch = "i386" THEN { n \in SyscallNames32 : Syscall32(n) = nr } ELSE {}
 =============================================================================
